@@ -71,27 +71,6 @@ def foreign_identifiers(code, allowed=MATH_H):
     return sorted(set(t for k, t in tokens(code) if k == "id" and t not in SYMS and t not in allowed))
 
 
-def int_literals_as_double(code):
-    """the same C text with every decimal integer literal given type double (123 -> 123.0)"""
-    out = []
-    i, n = 0, len(code)
-    while i < n:
-        c = code[i]
-        if c.isdigit() or (c == "." and i + 1 < n and code[i + 1].isdigit()):
-            m = _PPNUM.match(code, i)
-            tok = m.group(0)
-            out.append(tok + ".0" if tok.isdigit() else tok)
-            i = m.end()
-        elif c.isalpha() or c == "_":
-            m = _IDENT.match(code, i)
-            out.append(m.group(0))
-            i = m.end()
-        else:
-            out.append(c)
-            i += 1
-    return "".join(out)
-
-
 # ---------------------------------------------------------------------------------------------
 # C translation unit
 
